@@ -39,22 +39,24 @@ type cnDriver struct {
 	w       *bufio.Writer
 	nEvents int
 	// bookkeeping for the scenario generator
-	lastProj map[string]any
-	lastReg  map[string]any
-	sent     [][]byte // previously included raw transactions (for replays)
-	diverged []map[string]any
-	panics   []string
-	rejects  int
-	paths    map[string]int
-	txKinds  map[string]int
-	sched    [][]string           // optional per-height path assignment (from TLC)
-	nodeRts  map[string]string    // runtimes each node is currently registered for
-	pendRts  map[*cnTxSpec]string // proposed runtime lists of not yet executed registrations
-	rtOwner  map[string]string    // registered runtimes -> owning entity
-	epoch    int64
-	lastRh   []*rhView // round state of the runtimes at the end of the previous block
-	noRounds bool      // do not submit executor commitments
-	maxGroup int       // largest primary committee size requested by runtime registrations
+	lastProj   map[string]any
+	lastReg    map[string]any
+	sent       [][]byte // previously included raw transactions (for replays)
+	diverged   []map[string]any
+	panics     []string
+	rejects    int
+	paths      map[string]int
+	txKinds    map[string]int
+	sched      [][]string           // optional per-height path assignment (from TLC)
+	nodeRts    map[string]string    // runtimes each node is currently registered for
+	pendRts    map[*cnTxSpec]string // proposed runtime lists of not yet executed registrations
+	rtOwner    map[string]string    // registered runtimes -> owning entity
+	epoch      int64
+	lastRh     []*rhView // round state of the runtimes at the end of the previous block
+	noRounds   bool      // do not submit executor commitments
+	lastPropH  int64     // height of the last successful proposal
+	nProposals int       // governance proposals submitted successfully so far (their ids are 1..nProposals)
+	maxGroup   int       // largest primary committee size requested by runtime registrations
 }
 
 func (d *cnDriver) emit(m map[string]any) {
@@ -452,6 +454,44 @@ func (d *cnDriver) step() error {
 	if !d.noRounds {
 		metas = append(metas, d.genCommits(nonceBump)...)
 	}
+	if d.rng.Intn(7) == 0 || (d.nProposals > 0 && h-d.lastPropH <= 2*n.cfg.EpochInterval && d.rng.Intn(2) == 0) {
+		// governance: parameter-change proposals (by entities and users, some with unknown modules / empty content / deposits the
+		// submitter cannot cover) and votes (by validator entities, by users who may not vote, for proposals that do not exist)
+		var sp *cnTxSpec
+		if d.rng.Intn(3) == 0 || d.nProposals == 0 {
+			who := fmt.Sprintf("E%d", d.rng.Intn(n.cfg.Validators))
+			if d.rng.Intn(3) == 0 {
+				who = n.users[d.rng.Intn(len(n.users))].name
+			}
+			content := []string{"gov-deposit", "sched-maxvals", "staking-mintransfer", "gov-deposit", "bad-module", "empty"}[d.rng.Intn(6)]
+			validity := "ok"
+			if content == "bad-module" || content == "empty" {
+				validity = "badcontent"
+			}
+			sp = &cnTxSpec{Kind: "propose", Signer: who, Gov: content, Amount: int64(d.rng.Intn(50)), Gas: 5000, Validity: validity}
+		} else {
+			who := fmt.Sprintf("E%d", d.rng.Intn(n.cfg.Validators))
+			validity := "ok"
+			id := int64(d.nProposals) // the newest proposal is the one most likely still open
+			if d.rng.Intn(4) == 0 {
+				id = int64(1 + d.rng.Intn(d.nProposals))
+			}
+			switch d.rng.Intn(8) {
+			case 0:
+				who, validity = n.users[d.rng.Intn(len(n.users))].name, "noteligible"
+			case 1:
+				id, validity = int64(d.nProposals+3), "noproposal"
+			}
+			sp = &cnTxSpec{Kind: "vote", Signer: who, Amount: id, Vote: []string{"yes", "yes", "no", "abstain"}[d.rng.Intn(4)], Gas: 5000, Validity: validity}
+		}
+		sp.Nonce = uint64(d.acctField(sp.Signer, "n")) + nonceBump[sp.Signer]
+		if raw, err := n.buildTx(sp, d.rng); err == nil {
+			nonceBump[sp.Signer]++
+			metas = append(metas, cnTxMeta{sp, raw})
+		} else {
+			return err
+		}
+	}
 	if d.rng.Intn(4) == 0 {
 		// forgeries: an authentic signature under another body.  Source: a transaction this block carries (its signature is
 		// verified in this very block, before or after the forgery), or one the replicas verified in an earlier block.
@@ -667,6 +707,10 @@ func (d *cnDriver) observe(b *cnBlock, metas []cnTxMeta) cnBlockResult {
 						d.nodeRts[sp.Node] = rts
 					}
 					delete(d.pendRts, sp)
+				}
+				if sp.Kind == "propose" && resp.Code == 0 {
+					d.nProposals++
+					d.lastPropH = b.Height
 				}
 				if sp.Kind == "regruntime" && resp.Code == 0 {
 					d.rtOwner[sp.To] = sp.Signer
